@@ -124,6 +124,7 @@ class Block:
         self.txs = txs or []
         self.merkle = merkle            # None -> computed
         self.auxpow = auxpow            # raw bytes of the AuxPoW section or None
+        self.slack = b""               # bytes stored after the block INSIDE its record (the length prefix covers them)
         self._hash = None
 
     @property
